@@ -167,13 +167,32 @@ type ctx struct {
 // check runs one case on the real code, writes the protocol line and evaluates
 // the property's clauses.
 func (c *ctx) check(ns string, body []byte, progs []Prog, class string) {
+	c.checkX(false, ns, body, progs, class)
+}
+
+// checkX is check on a session whose output the local side has closed before Serve starts
+// (closed0) or closes in a handler (Prog.Close): writes fail from then on, stream-level
+// constructs must still end Serve with their error.
+func (c *ctx) checkX(closed0 bool, ns string, body []byte, progs []Prog, class string) {
 	r := c.r
 	local, remote := addrs(ns)
 	toks := Tokens(ns, body)
-	res := Serve(ns, local, remote, body, progs, nil)
+	anyClose := closed0
+	for _, p := range progs {
+		anyClose = anyClose || p.Close
+	}
+	var before func(s *xmpp.Session, out *common.SafeBuffer) func()
+	if closed0 {
+		before = func(s *xmpp.Session, out *common.SafeBuffer) func() { _ = s.Close(); return nil }
+	}
+	res := ServeHook(ns, local, remote, body, progs, nil, before)
 	line := CaseLine(ns, res.LocalBare, toks, progs)
+	if anyClose {
+		line = "servex " + common.B(closed0) + strings.TrimPrefix(line, "serve")
+	}
 	lines := []string{r.Prop + " " + line, "#body " + common.Hex(body)}
 	els, closed, werr := Written(ns, res.Out)
+	closed = closed || closed0
 	wobs, cond := WrittenObs(els)
 	cls := ErrClass(res.Err)
 	switch {
@@ -215,6 +234,41 @@ func (c *ctx) check(ns string, body []byte, progs []Prog, class string) {
 					break
 				}
 			}
+		}
+	}
+	// once the output is closed a write ends the session with the output-closed error: a
+	// handler's own write, or the automatic reply to an unanswered get/set
+	isClosed := closed0
+	for k, e := range ex.elems {
+		if k >= wantN {
+			break
+		}
+		var p Prog
+		if k < len(progs) {
+			p = progs[k]
+		} else {
+			p.Ret = "ok"
+		}
+		isClosed = isClosed || p.Close
+		if !isClosed || p.Ret != "ok" {
+			continue
+		}
+		nw := 0
+		for _, o := range p.Ops {
+			nw += len(o.Write)
+		}
+		typ := attrVal(e.start.Attr, "type")
+		needs := e.start.Name.Local == "iq" && (e.start.Name.Space == NSClient || e.start.Name.Space == NSServer) && (typ == "get" || typ == "set")
+		if needs {
+			if f := attrVal(e.start.Attr, "from"); f != "" && !(f == res.LocalBare && e.start.Name.Space == ns) {
+				if _, err := jid.Parse(f); err != nil {
+					break // bad-jid, set above
+				}
+			}
+		}
+		if needs || nw > 0 {
+			wantN, wantEnd = k+1, "output-closed"
+			break
 		}
 	}
 	if handlerStopped >= 0 && handlerStopped < wantN {
@@ -405,8 +459,116 @@ func Facts(repo string) (string, error) {
 		}
 		fmt.Fprintf(&sb, "/-- every code point c for which a session whose peer sends the single character c between\ntop-level elements goes on serving (all 1112064 scalar values tried) -/\ndef topWhitespace : Option (List Nat) := some [%s]\n", strings.Join(el, ", "))
 	}
+	sb.WriteString("\n" + verdictFacts())
 	sb.WriteString("\nend XmppModel.Generated.C08\n")
 	return sb.String(), nil
+}
+
+// kinds of the verdict table (the model maps each name to a token: Serve.factTok)
+var factKinds = []struct{ name, xml string }{
+	{"ws", " \n"},
+	{"text", "x"},
+	{"comment", "<!--c-->"},
+	{"pi-xml", `<?xml version="1.0"?>`},
+	{"pi-XML", `<?XML x?>`},
+	{"pi-stylesheet", `<?xml-stylesheet href="a"?>`},
+	{"pi-x", `<?x y?>`},
+	{"directive", "<!DOCTYPE x>"},
+	{"stream-error", `<stream:error><host-gone xmlns="urn:ietf:params:xml:ns:xmpp-streams"/></stream:error>`},
+	{"restart", `<stream:stream xmlns="jabber:client" xmlns:stream="http://etherx.jabber.org/streams">`},
+	{"stream-other", `<stream:features/>`},
+	{"plain", `<e xmlns="urn:e"/>`},
+	{"close", `</stream:stream>`},
+}
+
+// verdictFacts runs the real reader (through real sessions) on the finite grid token kind x
+// depth 0/1/2 of an established stream, and real negotiations on kind-before-header, and
+// renders the observed verdicts.
+func verdictFacts() string {
+	var rows []string
+	ok := true
+	for _, k := range factKinds {
+		for depth := 0; depth <= 2; depth++ {
+			if k.name == "close" && depth > 0 {
+				continue // not well-formed: the decoder reports it, the reader never sees it
+			}
+			open, shut := "", ""
+			for d := 0; d < depth; d++ {
+				open += fmt.Sprintf(`<w%d xmlns="urn:w">`, d)
+				shut = fmt.Sprintf("</w%d>", d) + shut
+			}
+			body := open + k.xml
+			if k.name != "restart" {
+				body += shut + `<probe xmlns="urn:p"/></stream:stream>`
+			}
+			// the handler of the wrapping element reads through the token under test and
+			// ignores errors; at depth 0 there is no wrapping element
+			progs := []Prog{progReads(depth+2, "ok"), progReads(0, "ok"), progReads(0, "ok")}
+			res := Serve(NSClient, LocalJID, RemoteJID, []byte(body), progs, nil)
+			v := ""
+			cls := ErrClass(res.Err)
+			switch {
+			case res.Panic != "" || res.Stall:
+				ok = false
+			case depth == 0:
+				switch {
+				case cls != "clean":
+					v = cls
+				case len(res.Invs) > 0 && res.Invs[len(res.Invs)-1].Start.Name.Local == "probe":
+					v = "tok" // delivered (an element) or passed on and skipped (a keep-alive)
+				default:
+					v = "eof"
+				}
+			default:
+				if len(res.Invs) == 0 || len(res.Invs[0].Obs) < depth {
+					ok = false
+					break
+				}
+				o := res.Invs[0].Obs[depth-1]
+				switch {
+				case strings.HasPrefix(o, "t"):
+					v = "tok"
+				case o == "e":
+					v = cls
+				default:
+					v = "eof"
+				}
+			}
+			rows = append(rows, fmt.Sprintf("(%q, %d, %q)", k.name, depth, v))
+		}
+	}
+	var sb strings.Builder
+	if !ok {
+		sb.WriteString("def readerVerdicts : Option (List (String × Nat × String)) := none\n")
+	} else {
+		sb.WriteString("/-- verdict of the real stream reader on an established stream for every token kind at nesting\ndepth 0, 1, 2 (observed through real sessions) -/\ndef readerVerdicts : Option (List (String × Nat × String)) := some [\n  " + strings.Join(rows, ",\n  ") + "]\n")
+	}
+	// while a stream header is expected (negotiating): what may precede the header
+	var hrows []string
+	neg := xmpp.NewNegotiator(func(*xmpp.Session, *xmpp.StreamConfig) xmpp.StreamConfig { return xmpp.StreamConfig{} })
+	hdr := `<stream:stream xmlns="jabber:client" xmlns:stream="` + NSStream + `" version="1.0" to="example.com">`
+	for _, k := range factKinds[:8] {
+		var err error
+		p := common.Recover(func() {
+			_, err = xmpp.ReceiveSession(context.Background(), rwPair{strings.NewReader(k.xml + hdr), io.Discard}, 0, neg)
+		})
+		v := "header-reached"
+		switch {
+		case p != "":
+			v = "PANIC"
+		case err != nil && strings.Contains(err.Error(), "proc inst"):
+			v = "procinst"
+		case err != nil && strings.Contains(err.Error(), "comment"):
+			v = "comment"
+		case err != nil && strings.Contains(err.Error(), "directive"):
+			v = "directive"
+		case err != nil && strings.Contains(err.Error(), "chardata"):
+			v = "chardata"
+		}
+		hrows = append(hrows, fmt.Sprintf("(%q, %q)", k.name, v))
+	}
+	sb.WriteString("\n/-- what the real negotiation does with a token that precedes the stream header -/\ndef headerVerdicts : Option (List (String × String)) := some [\n  " + strings.Join(hrows, ",\n  ") + "]\n")
+	return sb.String()
 }
 
 // ---- generators ----------------------------------------------------------------
@@ -425,6 +587,9 @@ var topItems = []string{
 	`<a xmlns="urn:a"><stream:error><conflict xmlns="urn:ietf:params:xml:ns:xmpp-streams"/></stream:error></a>`,
 	`<!--top-->`,
 	`<?pi top?>`,
+	`<?xml version="1.0"?>`,
+	`<?xml-stylesheet href="a"?>`,
+	`<message id="m5"><?xml version="1.0"?><body/></message>`,
 	`<!DOCTYPE x>`,
 	`junk`,
 	"\u00a0",
@@ -492,9 +657,9 @@ func genElement(rnd *common.Rand, depth int, dirtyOK bool) string {
 		case k == 7:
 			sb.WriteString("<![CDATA[ <raw/> ]]>")
 		case k == 8 && dirtyOK:
-			sb.WriteString([]string{"<!--c-->", "<?pi d?>", "<!DOCTYPE q>", "<stream:features/>",
+			sb.WriteString([]string{"<!--c-->", "<?pi d?>", `<?xml version="1.0"?>`, `<?xml-stylesheet x="y"?>`, "<!DOCTYPE q>", "<stream:features/>",
 				`<stream:error><not-authorized xmlns="urn:ietf:params:xml:ns:xmpp-streams"/></stream:error>`,
-				`<stream:stream xmlns="jabber:client" xmlns:stream="http://etherx.jabber.org/streams">`}[rnd.Intn(6)])
+				`<stream:stream xmlns="jabber:client" xmlns:stream="http://etherx.jabber.org/streams">`}[rnd.Intn(8)])
 		default:
 			sb.WriteString("<e/>")
 		}
@@ -624,6 +789,31 @@ func Run(r *common.Run) error {
 	rec("", 0)
 	r.Exhaustive = append(r.Exhaustive, fmt.Sprintf("all sequences of <= %d top-level items out of %d (elements, keep-alives, every stream-level construct at depth 0-2) x closed/unclosed x 3 consumption patterns", L, len(topItems)))
 
+	// the local side closes its output before Serve or in the handler of the k-th element,
+	// then the peer misbehaves: every top-level item, after 0..2 ordinary elements
+	ordinary := []string{`<message id="o1"><body>hi</body></message>`, `<iq type="result" id="o2"/>`, `<x xmlns="urn:x"><y/></x>`, `<iq type="get" id="o3"><q xmlns="urn:q"/></iq>`}
+	for _, it := range topItems {
+		for pre := 0; pre <= 2; pre++ {
+			prefix := ""
+			for k := 0; k < pre; k++ {
+				prefix += ordinary[(k+len(it))%3]
+			}
+			for _, tail := range []string{"</stream:stream>", ""} {
+				c.checkX(true, NSClient, []byte(prefix+it+tail), nil, "closed-before")
+				for at := 0; at <= pre; at++ {
+					ps := make([]Prog, at+1)
+					for k := range ps {
+						ps[k] = progReads(k, "ok")
+					}
+					ps[at].Close = true
+					c.checkX(false, NSClient, []byte(prefix+it+tail), ps, "closed-in-handler")
+				}
+			}
+		}
+	}
+	c.checkX(true, NSServer, []byte(ordinary[3]+ordinary[0]+"</stream:stream>"), nil, "closed-before")
+	c.checkX(false, NSClient, []byte(ordinary[0]+ordinary[0]+"<!--c--></stream:stream>"), []Prog{{Ret: "ok", Close: true, Ops: []Op{{Write: wMessage("w")}}}}, "closed-in-handler")
+
 	// random
 	rnd := r.Rnd
 	n := r.Pick(2500, 40000)
@@ -636,7 +826,12 @@ func Run(r *common.Run) error {
 		if ns == NSServer {
 			body = strings.ReplaceAll(body, `"me@example.com"`, `"example.com"`)
 		}
-		c.check(ns, []byte(body), genProgs(rnd, 5), "random")
+		ps := genProgs(rnd, 5)
+		if rnd.Chance(1, 8) && len(ps) > 0 {
+			ps[rnd.Intn(len(ps))].Close = true
+			// a handler cannot close after it wrote (it holds the output lock): Close comes first
+		}
+		c.checkX(rnd.Chance(1, 16), ns, []byte(body), ps, "random")
 	}
 	return nil
 }
@@ -657,6 +852,11 @@ func (c *ctx) replay(lines []string) error {
 			return err
 		}
 		g := strings.Fields(lines[i-1])
+		closed0 := false
+		if len(g) >= 8 && g[1] == "servex" {
+			closed0 = g[2] == "1"
+			g = append(g[:2], g[3:]...)
+		}
 		if len(g) < 7 {
 			continue
 		}
@@ -668,7 +868,7 @@ func (c *ctx) replay(lines []string) error {
 		if err != nil {
 			return err
 		}
-		c.check(ns, body, progs, "replay")
+		c.checkX(closed0, ns, body, progs, "replay")
 	}
 	return nil
 }
